@@ -43,7 +43,7 @@ impl TraitHandlerMultiple for IntoEnumHandler {
                         .build_from_attributes(&field.attrs, traits)?;
 
                         for ty in field_attribute.types.keys() {
-                            if !type_attribute.types.contains_key(ty) {
+                            if !type_attribute.types.iter().any(|(t, _)| t == ty) {
                                 return Err(super::panic::no_into_impl(ty));
                             }
                         }
